@@ -125,7 +125,7 @@ static int enumerate(const char *text, const char *scen, uint64_t idx, const cha
   runarg_t a = { text, 0, 0, 1 };
   child_res_t cr;
   /* the shared mapping is two pages: page 2 holds cumulative request counts per line */
-  eng_fork_run(child_run, &a, errpath, 60, &cr);
+  eng_fork_run(child_run, &a, errpath, 30, &cr);
   uint64_t h = fnv1a(text, strlen(text), FNV0);
   if (sim_shared->aux[1]) { out->skipped = 1; if (emit) printf("K idx=%llu scen=%s %s\n", (unsigned long long)idx, scen, sim_shared->note); return 0; }
   if (!sim_shared->completed) {
@@ -152,7 +152,7 @@ static int enumerate(const char *text, const char *scen, uint64_t idx, const cha
     long cnt = cum[ln + 1] - cum[ln];
     for (long j = 0; j < cnt; j++) {
       runarg_t b = { text, ln, j, 0 };
-      eng_fork_run(child_run, &b, errpath, 60, &cr);
+      eng_fork_run(child_run, &b, errpath, 30, &cr);
       int fired = sim_shared->fail_fired;
       uint64_t site = sim_shared->fail_site;
       const char *vc = viol_class(&cr, fired);
@@ -238,7 +238,7 @@ static int cmd_exec(int argc, char **argv) {
   if (!strstr(text, "failnext ")) { /* fault-free execution only */
     runarg_t d = { text, 0, 0, 1 };
     child_res_t dr;
-    eng_fork_run(child_run, &d, errpath, 60, &dr);
+    eng_fork_run(child_run, &d, errpath, 30, &dr);
     char buf[300];
     eng_first_line_matching(errpath, "rror", buf, sizeof buf);
     if (sim_shared->aux[1]) printf("X class=SKIPPED scen=%s detail=%s\n", scen, sim_shared->note);
@@ -249,7 +249,7 @@ static int cmd_exec(int argc, char **argv) {
   }
   runarg_t a = { text, 0, 0, 0 };
   child_res_t cr;
-  eng_fork_run(child_run, &a, errpath, 60, &cr);
+  eng_fork_run(child_run, &a, errpath, 30, &cr);
   int fired = sim_shared->fail_fired;
   const char *vc = sim_shared->aux[1] ? "SKIPPED" : viol_class(&cr, fired);
   char buf[300];
